@@ -33,6 +33,11 @@ func txnScenarios() []txnScen {
 		// the snapshot has to survive rotation, flush, compaction and version discard with the watermark wherever the
 		// other transactions left it; one writer shares the reader's snapshot timestamp
 		{Name: "R5-reader-spans-compactions", Init: init, Threads: [][]txProg{{ro("rx", "Q", "rx", "ry")}, {rw("C", "wa", "wx", "wz"), rw("C", "wa", "wx", "dy", "wz"), rw("C", "wa", "wx", "wy", "wz"), rw("C", "wa", "wx", "wz")}}},
+		{Name: "R7-reader-on-reopened-store-spans-compactions", Init: init, Reopen: true, Threads: [][]txProg{{ro("rx", "ry", "Q", "rx", "ry")}, {rw("C", "wa", "wx", "dy", "wz"), rw("C", "wa", "wx", "wy", "wz"), rw("C", "wa", "wx", "wz")}}},
+		{Name: "R8-updating-reader-on-reopened-store", Init: init, Reopen: true, Threads: [][]txProg{{rw("C", "ry", "Q", "rx", "ry", "wy")}, {rw("C", "wa", "wx", "wy", "wz"), ro("rx"), rw("C", "wa", "wx", "dy", "wz"), rw("C", "wa", "wx", "wz")}}},
+		// an old snapshot reads the keys of a commit while that commit's memtable is being flushed: the commit runs first
+		// (lowest thread id), the flusher next, and one deviation at any of the flusher's file operations lets the reader in
+		{Name: "R9-old-snapshot-reads-while-flushed", Init: init, Staged: []stagedTxn{{Prog: rw("C", "wx", "wy"), Defer: true}, {Prog: ro("rx"), Defer: true, Tail: []txOp{{Op: "G", K: scenKey("x")}, {Op: "G", K: scenKey("y")}}}}},
 		{Name: "R6-updating-reader-spans-compactions", Init: init, Threads: [][]txProg{{rw("C", "ry", "Q", "rx", "ry", "wy")}, {rw("C", "rx", "wa", "wx", "wz"), rw("C", "wa", "wx", "wy", "wz"), ro("rx"), rw("C", "wa", "wx", "dy", "wz"), rw("C", "wa", "wx", "wz")}}},
 		{Name: "C1-read-absent-delete", Init: []txProg{rw("C", "wy")}, Threads: [][]txProg{{rw("C", "rx", "wy")}, {rw("C", "wx")}, {rw("C", "dx")}}},
 		{Name: "C2-own-write-then-read", Init: init, Threads: [][]txProg{{rw("C", "wx", "rx", "wy")}, {rw("C", "wx")}, {rw("X", "rx", "wx")}}},
@@ -170,6 +175,7 @@ func txnUnits(tier, prop string, oracles ...txnOracle) []Unit {
 			sc.Keys = txnKeys
 			sc.FreezeEpilogue = true
 			sc.NoClose = true
+			sc.FSPoints = pl.cfg.Mem < 1000 // wherever memtables rotate, the file operations of the flusher are scheduling points
 			name := fmt.Sprintf("sched/%s/%s/budgets=%v", pl.scen, pl.cfgName, pl.budgets)
 			if pl.shards > 1 {
 				name += fmt.Sprintf("/shard%d of %d", sh, pl.shards)
